@@ -28,7 +28,27 @@ impl fmt::Display for SErr {
         write!(f, "SErr(code={},serial={})", self.code, self.serial)
     }
 }
-impl std::error::Error for SErr {}
+/// What an `SErr` with code 2 names as its cause. Its text looks like a connection failure
+/// (`code=1,`): a classifier that is asked about the error itself must not be fooled by it.
+#[derive(Debug)]
+pub struct Cause;
+impl fmt::Display for Cause {
+    fn fmt(&self, f: &mut fmt::Formatter<'_>) -> fmt::Result {
+        write!(f, "caused by SErr(code=1,serial=0): connection reset")
+    }
+}
+impl std::error::Error for Cause {}
+static CAUSE: Cause = Cause;
+
+impl std::error::Error for SErr {
+    fn source(&self) -> Option<&(dyn std::error::Error + 'static)> {
+        if self.code == 2 {
+            Some(&CAUSE)
+        } else {
+            None
+        }
+    }
+}
 
 #[derive(Clone, Copy, Debug, PartialEq, Eq, Hash, Serialize, Deserialize)]
 pub enum Lat {
